@@ -184,6 +184,23 @@ pub fn gen_tree(rng: &mut Rng, opts: &TreeOpts) -> TreeSpec {
             entries.push(Entry { path: lp.clone(), kind: EntryKind::Symlink(rel) });
             used.push(lp);
         }
+        // links inside sub-directories whose relative target goes up and over to another file
+        if dirs.len() > 1 && !files.is_empty() {
+            for i in 0..rng.below(3) {
+                let d = dirs[1 + rng.below(dirs.len() - 1)].clone();
+                let t = rng.pick(&files).clone();
+                let tname = t.rsplit('/').next().unwrap().to_string();
+                let ext = tname.rfind('.').map(|i| tname[i..].to_string()).unwrap_or_default();
+                let lp = format!("{}/rel{}{}", d, i, ext);
+                if used.contains(&lp) {
+                    continue;
+                }
+                let depth = d.matches('/').count() - root.matches('/').count();
+                let rel = t.strip_prefix(&format!("{}/", root)).unwrap_or(&t).to_string();
+                entries.push(Entry { path: lp.clone(), kind: EntryKind::Symlink(format!("{}{}", "../".repeat(depth), rel)) });
+                used.push(lp);
+            }
+        }
         if rng.chance(1, 3) && dirs.len() > 1 {
             let d = dirs[1 + rng.below(dirs.len() - 1)].clone();
             let lp = format!("{}/dirlink", root);
